@@ -125,6 +125,7 @@ func main() {
 		}
 	}
 	if *noEvidence {
+		res.applyExceptions()
 		n := 0
 		for _, e := range res.Errors {
 			fmt.Printf("CHECKER-ERROR property=%s %s\n", *prop, e)
